@@ -324,13 +324,18 @@ def run(ctx: common.Ctx):
     from nunavut.jinja.jinja2.filters import do_lineprefix
     rng = ctx.rng
     quick = ctx.quick
-    ctx.rule = ("lexer: every source up to length L over {{ { % # * } - space tab newline a }} + random fragment strings, x lstrip_blocks off/on; "
+    ctx.rule = ("whole lexer: every source up to length L over the delimiter alphabet and `{{`/`{%` + every string up to length L over the tag alphabet + random fragment strings, x trim/lstrip x line prefixes x keep_trailing_newline, token by token with line numbers, and what wrap hands to the parser; marker vs plain construct token streams; "
+                "nested marker templates: syntax tree and rendering; marked statements of every kind under inheritance; builder states; assert reports; ifuses argument kinds; "
+                "root rule: every source up to length L over {{ { % # * } - space tab newline a }} + random fragment strings, x lstrip_blocks off/on; "
                 "lineprefix: every string up to length L over {a,space,LF,CR,U+2028,VT} x 4 prefixes + random over all ten boundaries; marker placements x "
                 "line-ending styles; assert/ifuses chains x query valuations; differential: grammar-generated template sets x random contexts x "
                 "trim/lstrip settings; non-trivial = contains a begin sequence / a line boundary / a tag; distinct by input")
     ctx.assumptions = [
-        "the tag states (block, variable, comment, raw) are shared by both lexers and stay abstract in the model (parameter `inner`)",
-        "default delimiters (environment.py configures none; checked on the real CodeGenEnvironment)",
+        "the tag states (block, variable, comment, raw) are a parameter of the root-rule model `scan`; they are concrete in the whole-lexer model `lexF` (round 2)",
+        "default delimiters (environment.py configures none; checked on the real CodeGenEnvironment for every builder state)",
+        "line statement / line comment prefixes are transcribed for prefixes that are non-empty and do not begin with a white-space character (Nunavut configures neither)",
+        "Lexer.wrap: the value conversions (str / string unescape / int / float / operator name) are functions of the token text alone and are not modelled; token types, line numbers, dropped tokens and data newline normalisation are",
+        "the subparse / render model keeps expressions and the inside of statements as text (valuation) and is about templates whose tags are well formed for the upstream parser; marker theorems for whole token streams: data in front of the marker without `{` and not ending in a blank",
         "Python truthiness of the asserted expression is the abstraction boundary of the assert model",
         "parser, compiler and runtime of the bundled engine are covered by the differential tie only (vendored third-party code, not modelled)",
         "constructs on which upstream 2.x and 3.x themselves differ are outside the common language: " + "; ".join(G.EXCLUDED),
@@ -511,6 +516,7 @@ def run(ctx: common.Ctx):
 
     # ---- tie 4b + search (ii), nested: Parser.subparse autoindent wrapping composed with lineprefix ------------------------
     AI.run_autoindent(ctx, drv, bj, "O" if impl_variant.get(False) == "before-fix" else "B", fail, ref_prefix, split_keep, corpus["autoindent"])
+    AI.run_marked_statements(ctx, drv, bj, sj, fail, ref_prefix, split_keep)
     ctx.extra["stream_seconds"]["autoindent"] = round(_t.time() - _t0, 1); _t0 = _t.time()
 
     # ---- tie 5 + search (iii): assert / ifuses in the real CodeGenEnvironment -------------------------------
